@@ -35,6 +35,22 @@ var c14Names = []string{
 	"x/../x", "{root0}", "{root0}/x", "/orbitdb/{root0}/x", "../{root0}/x", "y/../../{root0}/z", "../../{root0}", "a/../../{root0}/db", "orbitdb", "%2e%2e/x", "a\\..\\b", "name with spaces/and/slash",
 }
 
+// genPathName composes a name from path segments, so that every mix of leading slashes, "." and ".."
+// segments, empty segments and an earlier database's root is reachable.
+func genPathName() *rapid.Generator[string] {
+	return rapid.Custom(func(rt *rapid.T) string {
+		segs := rapid.SliceOfN(rapid.SampledFrom([]string{"..", "..", ".", "", "a", "x", "db", "{root0}", "{root0}", "orbitdb"}), 1, 6).Draw(rt, "segs")
+		name := strings.Join(segs, "/")
+		switch rapid.IntRange(0, 3).Draw(rt, "lead") {
+		case 0:
+			name = "/" + name
+		case 1:
+			name = "//" + name
+		}
+		return name
+	})
+}
+
 func genC14(rt *rapid.T) CaseC14 {
 	var c CaseC14
 	n := rapid.IntRange(2, 4).Draw(rt, "ntuples")
@@ -45,7 +61,7 @@ func genC14(rt *rapid.T) CaseC14 {
 		if i == 0 {
 			t.Name = rapid.SampledFrom([]string{"db", "first", "a/b"}).Draw(rt, "name0")
 		} else {
-			t.Name = rapid.OneOf(rapid.SampledFrom(c14Names), rapid.SampledFrom(c14Names), rapid.StringMatching(`[a-zA-Z0-9._/ -]{0,12}`)).Draw(rt, "name")
+			t.Name = rapid.OneOf(rapid.SampledFrom(c14Names), rapid.SampledFrom(c14Names), rapid.StringMatching(`[a-zA-Z0-9._/ -]{0,12}`), genPathName(), genPathName()).Draw(rt, "name")
 		}
 		switch rapid.IntRange(0, 4).Draw(rt, "listkind") {
 		case 0:
